@@ -126,6 +126,9 @@ func init() {
 			if w.Batch == 2 || (w.Thorough() && w.Batch%8 == 2) {
 				c09ClockSkew(w)
 			}
+			if w.Batch == 3 || (w.Thorough() && w.Batch%8 == 3) {
+				c09ForgedSeals(w)
+			}
 			c09Truncation(w)
 		},
 	})
